@@ -10,7 +10,19 @@ Correspondence (model = lean/IrVerif/Model/SymExpr.lean, driver commands sym.*):
     stream through the real parser (`parse_symbolic_expression`) and the Lean parser: accepted /
     raised, the token stream, the parse tree (compared structurally through SymPy objects built
     under `sympy.evaluate(False)`) and the values under bindings;
-  * `simplify()`, `Shape.evaluate/simplify/free_symbols`.
+  * `simplify()`, `Shape.evaluate/simplify/free_symbols`;
+  * the glue between Python operators and expressions (model = lean/IrVerif/Model/SymDim.lean, commands sym.ov /
+    sym.dimeval / sym.shape / sym.dimeq): every generated tree is ALSO run as a program over the model's operator
+    overloads (`dunder` / `rdunder` / `unop` / `binop`), the outcome kind (dimension / TypeError) is compared with the
+    real build and the tree the model overloads build is compared, evaluation-equivalent under every binding, with the
+    tree the proved Lean parser recovers from the REAL object's printed `.value`; `SymbolicDim.evaluate` (int vs residual
+    dimension) and `Shape.evaluate / is_static / is_dynamic / free_symbols` are compared with `Dim.evaluate` / `Shape.*`;
+    plus an exhaustive matrix (GlueCase): 7 binary operators x all ordered pairs of 14 operand kinds, bool operands,
+    unary operators, the operators that have no overload, 14 shapes x 4 bindings, == / != / hash;
+  * the tokenizer over Unicode (model = lean/IrVerif/Model/SymLexU.lean, command sym.lexu): ALL strings of length <= 3
+    (thorough: 4) over a 24-character alphabet covering every character class the tokenizer distinguishes, through the
+    real tokenizer / parser and the model's classification-parametric tokenizer (CPython's str predicates are supplied
+    per character by the harness: external tables).
 Oracle (independent of the Lean model): exact `fractions.Fraction` arithmetic over the tree, Python's
 own `ast` grammar for the meaning of a string, an Earley recogniser over the documented grammar
 for accept/reject.  A wrong VALUE is attributed to SymPy (known finding, signature sympy-upstream:...)
@@ -40,13 +52,29 @@ THEOREMS = [
     NS + "C16_eval_free",
     NS + "C16_int_ops",
     NS + "C16_int_eval",
+    NS + "C16_overload_sem",
+    NS + "C16_overload_dispatch",
+    NS + "C16_shape_evaluate",
+    NS + "C16_simplify_guard",
+    NS + "C16_eq_hash",
+    NS + "C16_parser_total",
+    NS + "C16_tokenize_classes",
+    NS + "C16_print_parse_sympy_partial",
 ]
 ASSUMPTIONS = [
     "SymPy (construction, automatic simplification, str, subs, simplify, floor/Mod/Max arithmetic) is external: "
     "that it preserves evaluation is tested by the correspondence, not proved; where SymPy alone returns a wrong value "
     "(reproduced without repo code) the case is reported as known finding D162 instead of a violation",
     "bindings are positive integers (symbols are created with positive=True, integer=True)",
-    "ASCII text only; int() digit limit (4300 digits) not modelled; sqrt(a, b) (SymPy reads b as evaluate=) not modelled",
+    "the theorems about text are about ASCII text; non-ASCII text goes through the same tokenizer transcribed over a character "
+    "classification supplied by CPython's str.isspace/isdigit/isalpha/isalnum/isidentifier and int() (external tables; "
+    "C16_tokenize_classes: with the ASCII classification it is the proved tokenizer); int() digit limit (4300 digits) and "
+    "CPython's recursion limit on deeply nested text not modelled; sqrt(a, b) (SymPy reads b as evaluate=) not modelled",
+    "operator overloads: the SymPy operators they call are read by their documented meaning (Expr // is floor(a/b), Expr % is "
+    "Mod, Rational(1, n) * a); a bool operand (an int for isinstance) is refused by SymPy itself and is oracle-only; "
+    "Python's operator dispatch (forward method of a left dimension, reflected method of a right one) is modelled, not verified",
+    "SymbolicDim.simplify: sympy.simplify and the printability of its result are parameters of the model (C16_simplify_guard "
+    "assumes simplify preserves evaluation: checked on every generated case, share published as simplify=done)",
     "values that are not finite rationals (division by zero, max()/min() of nothing, irrational powers) are "
     "outside the property: the model says 'no value' and the real result is only recorded",
     "the parser model is the repaired grammar of fix commits eb07378 / 58a57cd / 185b2f9 (D24-D26); the Python "
@@ -352,6 +380,50 @@ def build(t):
         # SymbolicDim(text) followed by arithmetic: max/min exist only in the text form
         return ir.SymbolicDim(f"{op}({txt(a)}, {txt(b)})")
     raise AssertionError(op)
+
+
+PYOP = {"add": "add", "sub": "sub", "mul": "mul", "div": "truediv", "fdiv": "floordiv", "mod": "mod"}
+
+
+def prog_of_tree(t):
+    """The tree as a program over the model's operator overloads (driver command sym.ov): exactly the
+    calls `build` makes on the real objects."""
+    if t[0] == "n":
+        return ["int", t[1]]
+    if t[0] == "s":
+        return ["dim", t[1]]
+    if t[0] == "u":
+        return ["u", t[1], prog_of_tree(t[2])]
+    if t[1] in ("max", "min"):
+        return ["lat", t[1], prog_of_tree(t[2]), prog_of_tree(t[3])]
+    return ["b", PYOP[t[1]], prog_of_tree(t[2]), prog_of_tree(t[3])]
+
+
+def shape_obs(shp):
+    """what is observable of a real Shape without evaluating anything"""
+    n = len(shp)
+    return {"static": shp.is_static(), "dynamic": shp.is_dynamic(), "static_at": [shp.is_static(i) for i in range(n)],
+            "dynamic_at": [shp.is_dynamic(i) for i in range(n)], "free": sorted(shp.free_symbols())}
+
+
+def canon_text(v):
+    """canonical value of a dimension text: [num, den] for a number, None for zoo / nan / oo, else symbolic"""
+    if v is not None and _NUM_RE.fullmatch(v):
+        f = Fraction(v)
+        return [f.numerator, f.denominator]
+    if v in ("zoo", "nan", "oo", "-oo"):
+        return None
+    return ("symbolic", v)
+
+
+def sdim_obs(x):
+    import onnx_ir as ir
+
+    if isinstance(x, int) and not isinstance(x, bool):
+        return {"kind": "int", "z": x}
+    if isinstance(x, ir.SymbolicDim):
+        return {"kind": "unknown"} if x.value is None else {"kind": "dim", "text": x.value}
+    return {"kind": "other", "repr": repr(x)}
 
 
 def sympy_of_tree(t):
@@ -1248,6 +1320,8 @@ class TreeCase:
             if any(r is not None for r in self.ref):
                 P.fail("build:" + type(e).__name__ + "-on-defined-value:" + _shape_sig(t), f"building raised {type(e).__name__}: {e} although the expression has a value", self.case_obj)
         self.reqs.append({"m": "sym.eval", "e": t, "envs": [envj(e) for e in self.envs]})
+        # the same tree as a program over the MODEL's operator overloads (Model/SymDim.lean)
+        self.reqs.append({"m": "sym.ov", "p": prog_of_tree(t), "envs": [envj(e) for e in self.envs]})
         if self.with_pp:
             self.reqs.append({"m": "sym.pp", "e": t})
         if self.d is None:
@@ -1273,6 +1347,17 @@ class TreeCase:
         elif any(r is not None for r in self.ref):
             P.fail("print-parse:" + self.reparse[0] + ":" + _text_sig(self.value), f"SymbolicDim({self.value!r}) does not parse ({self.reparse[1]})", self.case_obj)
         self.reqs.append({"m": "sym.parse", "s": self.value, "envs": [envj(e) for e in self.envs]})
+        # SymPy's own printer: the SymPy object the dimension holds, serialised structurally, through the model of
+        # StrPrinter (Model/SymExprSympy.lean): its tokens must be the tokens of the real str(), token by token
+        self.sympy_pp = None
+        from harness.c16_sympy import real_tokens_of_text, sexpr_of_sympy
+
+        st, sx = attempt(lambda: (sexpr_of_sympy(d._expr), str(d._expr)))
+        if st == "ok" and sx[0] is not None and sx[1].isascii():
+            self.sympy_pp = {"text": sx[1], "tokens": real_tokens_of_text(sx[1])}
+            self.reqs.append({"m": "sym.sympy_pp", "e": sx[0], "envs": [envj(e) for e in self.envs]})
+        else:
+            P.count("sympy_pp=outside-fragment")
         self.real_struct = real_parse_structure(self.value)
         # oracle 3: partial bindings
         self.partials = []
@@ -1283,10 +1368,14 @@ class TreeCase:
                 want = ref_eval(t, full)
             except TooBig:
                 continue
+            r1kind = []
+
             def _partial():
                 r1 = d.evaluate(b1)
                 if isinstance(r1, int) and not isinstance(r1, bool):
+                    r1kind.append(("int", r1))
                     return [r1, 1], [], str(r1)
+                r1kind.append(("dim", r1.value))
                 got = real_eval(r1, b2)
                 free1 = sorted(r1.free_symbols())
                 r1text = r1.value
@@ -1308,8 +1397,10 @@ class TreeCase:
             allowed = set(tree_syms(t)) - set(b1)
             if want is not None and not set(free1) <= allowed:
                 P.fail("partial:free-symbols", f"residual {r1text!r} has free symbols {free1}, expected a subset of {sorted(allowed)}", self.case_obj)
-            self.partials.append((b1, b2, got, free1))
+            self.partials.append((b1, b2, got, free1, r1kind[0] if r1kind and st == "ok" else None))
             self.reqs.append({"m": "sym.partial", "e": t, "b1": envj(b1), "b2": envj(b2)})
+            # SymbolicDim.evaluate itself (int or residual dimension) on the model side
+            self.reqs.append({"m": "sym.dimeval", "p": prog_of_tree(t), "b": envj(b1), "envs": [envj(b2)]})
         if all(r is not None for r in self.ref) and not set(d.free_symbols()) <= set(tree_syms(t)):
             P.fail("free-symbols", f"free_symbols() = {sorted(d.free_symbols())} not within the tree's symbols", self.case_obj)
         # oracle 4: simplify never changes an evaluation
@@ -1381,8 +1472,12 @@ class TreeCase:
         d, env = self.d, self.envs[0]
         other = ir.SymbolicDim("K") + 1
         shp = ir.Shape([d, 7, "K", other, None])
+        self.shape_real = None
+
         def _go():
+            before = shape_obs(shp)
             ev = shp.evaluate(env)
+            self.shape_real = {"before": before, "evaluated": [sdim_obs(x) for x in ev.dims], "after": shape_obs(ev)}
             dims = [canon_real(x) if not isinstance(x, int) else [x, 1] for x in ev.dims]
             want = [real_eval(d, env), [7, 1], real_eval(ir.SymbolicDim("K"), env), real_eval(other, env), ("symbolic", None)]
             if dims != want:
@@ -1402,6 +1497,11 @@ class TreeCase:
                 P.fail("shape:simplify", f"Shape.simplify() = {got}, the dimension's own simplify() {own}", self.case_obj)
 
         st, res = attempt(_go)
+        if st == "ok" and self.shape_real is not None:
+            self.reqs.append({"m": "sym.shape", "b": envj(env),
+                              "dims": [prog_of_tree(self.tree), 7, ["dim", "K"], ["b", "add", ["dim", "K"], ["int", 1]], ["unknown"]]})
+        else:
+            self.shape_real = None
         P.count("shape=" + ("done" if st == "ok" else res))
         if st != "ok" and self.ref[0] is not None:
             P.fail("shape:raises", f"Shape.evaluate/free_symbols raises ({res}) although the dimension evaluates", self.case_obj)
@@ -1437,9 +1537,27 @@ class TreeCase:
                     P.disagree("harness: Python int arithmetic != Fraction arithmetic on the integer fragment", self.case_obj, pyints, want)
         elif ev.get("int") is not None:
             P.disagree("Lean intFrag accepts a tree outside the integer fragment", self.case_obj, ev.get("int"), None)
+        self._finish_ov(P, next(it), lean_vals)
         if self.with_pp:
             self._finish_pp(P, next(it), want)
         self._finish_rest(P, it, lean_vals)
+
+    def _finish_ov(self, P: Part, ov, lean_vals):
+        """the MODEL's operator overloads on the same program: outcome kind vs the real build, and the tree
+        they build vs the plain operator tree (an instance of C16_overload_sem)"""
+        st = ov.get("status")
+        P.count("overload_model=" + str(st))
+        self.ov_vals = None
+        if st == "typeerror" or self.build_state == "typeerror":
+            if st != self.build_state:
+                P.disagree("operator overloads: TypeError in only one of model / real code", self.case_obj, st, self.build_state)
+            return
+        if st != "ok":
+            P.disagree("model overload program does not produce a dimension", self.case_obj, ov, self.build_state)
+            return
+        if ov.get("vals") != lean_vals:
+            P.disagree("model: tree built by the overloads evaluates differently from the operator tree", self.case_obj, ov.get("vals"), lean_vals)
+        self.ov_vals = ov.get("vals")
 
     def _finish_pp(self, P: Part, ppo, want):
         t = self.tree
@@ -1473,14 +1591,116 @@ class TreeCase:
                 break
         pr = next(it)
         self._compare_parse(P, self.value, self.reparse, self.real_struct, pr, self.vals2, self.envs)
-        for (b1, b2, got, free1) in self.partials:
+        if self.sympy_pp is not None:
+            self._finish_sympy_pp(P, next(it), lean_vals)
+        # the tie of the overload model: the tree the MODEL overloads build vs the tree the (proved) Lean parser
+        # recovers from the REAL object's printed form, evaluation-equivalent under every binding
+        if self.ov_vals is not None and pr.get("r") == "ok":
+            P.count("overload_tie=compared")
+            for w, g, env in zip(self.ov_vals, pr.get("vals", []), self.envs):
+                if w is not None and g != w:
+                    vdisagree(P, "tree built by the model overloads != Lean parse of the real .value text (evaluation)",
+                              {"value": self.value, **self.case_obj}, w, g, g, (t, env), (py_tree(self.value), env))
+                    break
+        for (b1, b2, got, free1, r1kind) in self.partials:
             po = next(it)
+            de = next(it)
+            self._finish_dimeval(P, de, b1, b2, r1kind)
             if po.get("resid") != po.get("full"):
                 P.disagree("model: eval b2 (subst b1 e) != eval (b1 u b2) e", self.case_obj, po, None)
             if po.get("resid") is not None and got != po.get("resid"):
                 vdisagree(P, "real partial evaluate != Lean subst/eval", {"b1": b1, "b2": b2, **self.case_obj}, po.get("resid"), got, got, (t, b1, b2))
             if po.get("resid") is not None and not set(free1) <= set(po.get("free", [])):
                 P.disagree("real residual free symbols not within the model's", {"b1": b1, **self.case_obj}, po.get("free"), free1)
+        if getattr(self, "shape_real", None) is not None:
+            self._finish_shape(P, next(it))
+
+    def _finish_sympy_pp(self, P: Part, sp, lean_vals):
+        """model of SymPy's StrPrinter (ppSympy) vs the real str(): token-exact; hypothesis SWf of
+        C16_print_parse_sympy_partial evaluated; parse result = surf; and the unproved half (surf evaluates like the
+        SymPy object's meaning) computed exactly on both sides"""
+        case = {"text": self.sympy_pp["text"], **self.case_obj}
+        P.count("sympy_pp_wf=" + str(bool(sp.get("wf"))))
+        if sp.get("tokens") != self.sympy_pp["tokens"]:
+            P.disagree("model of SymPy's printer (ppSympy) emits other tokens than the real str()", case, sp.get("s"), self.sympy_pp["text"])
+            return
+        if sp.get("wf") and sp.get("parsed") != sp.get("surf"):
+            P.disagree("model: parseTokens (ppSympy s) != surf s on a well-formed s", case, sp.get("parsed"), sp.get("surf"))
+        if sp.get("parsed") is None:
+            P.disagree("model parser rejects the text of the model of SymPy's printer", case, None, self.sympy_pp["text"])
+            return
+        if sp.get("vals_parsed") != sp.get("vals_den"):
+            P.disagree("SymPy surface form: the parsed text evaluates differently from the SymPy object's meaning (sden)", case, sp.get("vals_parsed"), sp.get("vals_den"))
+        P.count("sympy_pp=token-exact")
+        # what SymPy's construction made of the operator tree (external): its meaning vs the tree's, where defined
+        for w, g, env in zip(lean_vals or [], sp.get("vals_den") or [], self.envs):
+            if w is not None and g != w:
+                vdisagree(P, "meaning of the SymPy object the dimension holds != the operator tree (SymPy construction)", case, w, g, g, (self.tree, env))
+                break
+
+    def _finish_dimeval(self, P: Part, de, b1, b2, r1kind):
+        """SymbolicDim.evaluate: int vs residual dimension (Dim.evaluate of the model)"""
+        if r1kind is None:
+            return
+        t, case = self.tree, {"b1": b1, "b2": b2, **self.case_obj}
+        st = de.get("status")
+        P.count("dimeval_model=" + str(st) + ",real=" + r1kind[0])
+        if st == "int":
+            # complete (for this expression) binding with an integer value: the real code must return that int
+            if r1kind != ("int", de.get("z")):
+                got = [r1kind[1], 1] if r1kind[0] == "int" else canon_text(r1kind[1])
+                vdisagree(P, "evaluate(): the model returns an int, the real code something else", case, de.get("z"), list(r1kind), got, (t, b1))
+        elif st == "ok":
+            if r1kind[0] == "int":
+                # SymPy simplified the unbound symbols away (N - N): the residual must agree where it has a value
+                w = (de.get("vals") or [None])[0]
+                if w is not None and w != [r1kind[1], 1]:
+                    vdisagree(P, "evaluate(): real int differs from the model residual's value", case, w, r1kind[1], [r1kind[1], 1], (t, b1, b2))
+        else:
+            P.disagree("model evaluate() of a built dimension is neither int nor dimension", case, de, list(r1kind))
+
+    def _finish_shape(self, P: Part, so):
+        """Shape.evaluate / is_static / is_dynamic / free_symbols: model (Shape.* of Model/SymDim.lean) vs real"""
+        real, case = self.shape_real, {"shape": "[d, 7, 'K', K + 1, None]", **self.case_obj}
+        mb, rb = so.get("before") or {}, real["before"]
+        for k in ("static", "dynamic", "static_at", "dynamic_at"):
+            if mb.get(k) != rb[k]:
+                P.disagree(f"Shape.{k} differs before evaluate", case, mb.get(k), rb[k])
+        defined = all(r is not None for r in self.ref)  # a text holding zoo / nan re-parses with a symbol of that name
+        if defined and (mb.get("free") is None or not set(rb["free"]) <= set(mb["free"])):
+            P.disagree("Shape.free_symbols() not within the model's", case, mb.get("free"), rb["free"])
+        mev = so.get("evaluated")
+        if mev is None or len(mev) != len(real["evaluated"]):
+            P.disagree("Shape.evaluate: rank differs / model raises", case, mev, real["evaluated"])
+            return
+        same_kinds = True
+        for i, (m, r) in enumerate(zip(mev, real["evaluated"])):
+            if m["kind"] == "int":
+                if r != {"kind": "int", "z": m["z"]}:
+                    same_kinds = False
+                    got = [r["z"], 1] if r["kind"] == "int" else canon_text(r.get("text"))
+                    if i == 0:
+                        vdisagree(P, "Shape.evaluate: the model gives an int dimension, the real code something else", case, m, r, got, (self.tree, self.envs[0]))
+                    else:
+                        P.disagree("Shape.evaluate: the model gives an int dimension, the real code something else", case, m, r)
+            elif m["kind"] == "unknown":
+                if r["kind"] != "unknown":
+                    same_kinds = False
+                    P.disagree("Shape.evaluate: unknown dimension did not stay unknown", case, m, r)
+            elif r["kind"] == "int":
+                same_kinds = False
+                P.count("shape_eval=real-int-by-simplification")
+            elif r["kind"] != "dim":
+                same_kinds = False
+                P.disagree("Shape.evaluate: dimension kinds differ", case, m, r)
+        P.count("shape_model=compared")
+        if same_kinds:
+            ma, ra = so.get("after") or {}, real["after"]
+            for k in ("static", "dynamic", "static_at", "dynamic_at"):
+                if ma.get(k) != ra[k]:
+                    P.disagree(f"Shape.{k} differs after evaluate", case, ma.get(k), ra[k])
+            if defined and (ma.get("free") is None or not set(ra["free"]) <= set(ma["free"])):
+                P.disagree("Shape.free_symbols() after evaluate not within the model's", case, ma.get("free"), ra["free"])
 
     @staticmethod
     def _compare_parse(P, s, real_outcome, real_struct, lean, real_vals, envs=()):
@@ -1686,6 +1906,409 @@ class DerivCase:
         TreeCase._compare_parse(P, self.s, self.outcome, self.real_struct, lean, self.real_vals, self.envs)
 
 
+# --------------------------------------------------------------------------- the operator glue, as a matrix
+
+GLUE_ENVS = [{"N": 7, "M": 2}, {"N": 4, "M": 3}, {"N": 1, "M": 1}]
+GLUE_BOPS = ["add", "sub", "mul", "truediv", "floordiv", "mod", "pow"]
+GLUE_UOPS = ["neg", "floor", "ceil", "trunc"]
+# operand kind -> program of the model (sym.ov); the real operand is made by `glue_operand`
+GLUE_KINDS = {
+    "int3": ["int", 3], "int0": ["int", 0], "intm2": ["int", -2], "int1": ["int", 1],
+    "dimN": ["dim", "N"],
+    "dimE": ["b", "sub", ["b", "truediv", ["dim", "N"], ["int", 2]], ["int", 1]],
+    "dimT": ["dim", "floor(N/2) + M"],
+    "dimX": ["dim", "-N**2 % M"],
+    "unk": ["unknown"], "bad": ["dim", "a b"],
+    "float": ["other"], "none": ["other"], "frac": ["other"], "str": ["other"],
+}
+GLUE_DIMS = ("dimN", "dimE", "dimT", "dimX", "unk", "bad")
+
+
+def glue_operand(kind):
+    import onnx_ir as ir
+
+    return {
+        "int3": lambda: 3, "int0": lambda: 0, "intm2": lambda: -2, "int1": lambda: 1,
+        "dimN": lambda: ir.SymbolicDim("N"), "dimE": lambda: ir.SymbolicDim("N") / 2 - 1,
+        "dimT": lambda: ir.SymbolicDim("floor(N/2) + M"), "dimX": lambda: ir.SymbolicDim("-N**2 % M"),
+        "unk": lambda: ir.SymbolicDim(None), "bad": lambda: ir.SymbolicDim("a b"),
+        "float": lambda: 1.5, "none": lambda: None, "frac": lambda: Fraction(1, 2), "str": lambda: "x",
+        "true": lambda: True, "false": lambda: False,
+    }[kind]()
+
+
+def glue_outcome(fn):
+    """('ok', dim) | ('unknown',) | ('typeerror',) | ('valueerror',) | ('zerodiv',) | ('other', text)"""
+    import onnx_ir as ir
+
+    try:
+        r = fn()
+    except INFRA_EXC:
+        raise
+    except TypeError:
+        return ("typeerror",)
+    except ZeroDivisionError:
+        return ("zerodiv",)
+    except ValueError as e:
+        return ("valueerror",) if str(e).startswith(_PARSER_MSG) else ("other", "ValueError:" + str(e)[:60])
+    except Exception as e:  # noqa: BLE001
+        return ("other", type(e).__name__)
+    if isinstance(r, ir.SymbolicDim):
+        return ("unknown",) if r.value is None else ("ok", r)
+    return ("other", repr(r)[:60])
+
+
+class GlueCase:
+    """The glue between Python operators and expressions as a matrix (model = Model/SymDim.lean):
+    every binary operator x every ordered pair of operand kinds (int / bool / dimension with a plain, computed,
+    text-built expression / unknown dimension / unparseable text / float, None, Fraction, str), the unary operators,
+    the operators that have no overload, Shape methods, and equality / hash."""
+
+    def __init__(self, what: str, arg=None, src: str = "glue"):
+        self.what, self.arg, self.src = what, arg, src
+        self.reqs = []
+        self.rows = []
+
+    # -- binary operators
+    def _prep_binop(self, P: Part):
+        import operator
+
+        op = self.arg
+        fn = getattr(operator, op)
+        kinds = list(GLUE_KINDS)
+        for xk in kinds:
+            for yk in kinds:
+                if xk not in GLUE_DIMS and yk not in GLUE_DIMS:
+                    continue
+                if xk == "str":
+                    continue  # "x" % dim is string formatting, "x" * dim sequence repetition: not the dimension's doing
+                real = glue_outcome(lambda: fn(glue_operand(xk), glue_operand(yk)))
+                vals = [real_eval(real[1], e) for e in GLUE_ENVS] if real[0] == "ok" else None
+                self.rows.append(("binop", op, xk, yk, real, vals))
+                self.reqs.append({"m": "sym.ov", "p": ["b", op, GLUE_KINDS[xk], GLUE_KINDS[yk]], "envs": [envj(e) for e in GLUE_ENVS]})
+                self.reqs.append({"m": "sym.parse", "s": real[1].value if real[0] == "ok" else "", "envs": [envj(e) for e in GLUE_ENVS]})
+        # bool operands (isinstance(True, int)): SymPy refuses them; either a TypeError or the int's result
+        for bk, iv in (("true", 1), ("false", 0)):
+            for dk in ("dimN", "dimE", "unk"):
+                for left in (True, False):
+                    a = (lambda: fn(glue_operand(bk), glue_operand(dk))) if left else (lambda: fn(glue_operand(dk), glue_operand(bk)))
+                    b = (lambda: fn(iv, glue_operand(dk))) if left else (lambda: fn(glue_operand(dk), iv))
+                    ra, rb = glue_outcome(a), glue_outcome(b)
+                    same = ra[0] == rb[0] and (ra[0] != "ok" or ra[1].value == rb[1].value)
+                    P.count("glue_bool=" + ("as-int" if same else ra[0]))
+                    if not same and ra[0] != "typeerror":
+                        P.fail(f"glue:bool-operand:{op}:{dk}:{'left' if left else 'right'}", f"{op} with the bool operand {bk} gives {ra[0]}, with the int {iv} gives {rb[0]}",
+                               {"kind": "glue", "what": "binop", "arg": op})
+
+    def _fin_binop(self, P: Part, outs):
+        it = iter(outs)
+        for (_, op, xk, yk, real, vals) in self.rows:
+            ov, pr = next(it), next(it)
+            case = {"kind": "glue", "what": "binop", "arg": op, "x": xk, "y": yk}
+            st = ov.get("status")
+            P.case(["glue", op, xk, yk], nontrivial=True, sample={"glue": f"{xk} {op} {yk}", "real": real[0]}, src=self.src, glue_outcome=f"{op}:{real[0]}")
+            if real[0] == "zerodiv":
+                # SymPy evaluates `x % 0` eagerly: legitimate when the model tree has no value at all
+                if st != "ok" or any(v is not None for v in ov.get("vals", [])):
+                    P.disagree("glue: the real operator raises ZeroDivisionError, the model tree has a value", case, ov, real[0])
+                continue
+            if st != real[0]:
+                P.disagree("glue: outcome kind of a binary operator differs", case, st, real[0] if real[0] != "other" else list(real))
+                continue
+            if st != "ok":
+                continue
+            for w, g, g2, env in zip(ov.get("vals", []), vals, pr.get("vals", [None] * len(GLUE_ENVS)) if pr.get("r") == "ok" else [None] * len(GLUE_ENVS), GLUE_ENVS):
+                if w is None:
+                    continue
+                if g != w:
+                    P.disagree("glue: value of the dimension a binary operator returns differs from the model tree", {**case, "env": env, "text": real[1].value}, w, g)
+                    break
+                if pr.get("r") != "ok" or g2 != w:
+                    P.disagree("glue: Lean parse of the returned dimension's text differs from the model tree", {**case, "env": env, "text": real[1].value}, w, [pr.get("r"), g2])
+                    break
+
+    # -- unary operators and the operators without an overload
+    def _prep_unop(self, P: Part):
+        fns = {"neg": lambda x: -x, "floor": math.floor, "ceil": math.ceil, "trunc": math.trunc}
+        for op in GLUE_UOPS:
+            for xk in GLUE_DIMS:
+                real = glue_outcome(lambda: fns[op](glue_operand(xk)))
+                vals = [real_eval(real[1], e) for e in GLUE_ENVS] if real[0] == "ok" else None
+                self.rows.append(("unop", op, xk, real, vals))
+                self.reqs.append({"m": "sym.ov", "p": ["u", op, GLUE_KINDS[xk]], "envs": [envj(e) for e in GLUE_ENVS]})
+        absent = {"abs": abs, "pos": lambda x: +x, "round": round, "divmod": lambda x: divmod(x, 2), "rdivmod": lambda x: divmod(7, x),
+                  "pow3": lambda x: pow(x, 2, 5), "invert": lambda x: ~x, "lshift": lambda x: x << 1, "matmul": lambda x: x @ x,
+                  "index": lambda x: [0, 1][x], "lt": lambda x: x < 3, "float": float, "complex": complex}
+        for name, f in absent.items():
+            for xk in ("dimN", "dimE", "unk"):
+                real = glue_outcome(lambda: f(glue_operand(xk)))
+                P.count(f"glue_absent={name}:{real[0]}")
+                if real[0] != "typeerror":
+                    P.disagree("glue: an operator the model has no overload for does not raise TypeError", {"kind": "glue", "what": "unop", "op": name, "x": xk}, "typeerror", list(real)[:1])
+
+    def _fin_unop(self, P: Part, outs):
+        for (_, op, xk, real, vals), ov in zip(self.rows, outs):
+            case = {"kind": "glue", "what": "unop", "op": op, "x": xk}
+            P.case(["glue", op, xk], nontrivial=True, src=self.src, glue_outcome=f"{op}:{real[0]}")
+            if ov.get("status") != real[0]:
+                P.disagree("glue: outcome kind of a unary operator differs", case, ov.get("status"), real[0])
+            elif real[0] == "ok":
+                for w, g in zip(ov.get("vals", []), vals):
+                    if w is not None and g != w:
+                        P.disagree("glue: value of the dimension a unary operator returns differs from the model tree", {**case, "text": real[1].value}, w, g)
+                        break
+
+    # -- Shape
+    SHAPES = [[], [2, 3], [0], ["N", 2], [None], ["N + 1", "M"], ["N/2", None, 4], ["N - N", "N"], ["a b", 2], ["N", "a b"],
+              ["floor(N/2)", "M*N", "K", 1], ["max(N, M)", "N % M", "N // M", "-N"], [None, None], ["N", "N", "N"]]
+    SHAPE_BINDINGS = [{}, {"N": 3}, {"N": 3, "M": 4}, {"N": 8, "M": 3, "K": 2, "unused": 9}]
+
+    def _prep_shape(self, P: Part):
+        import onnx_ir as ir
+
+        for dims in self.SHAPES:
+            shp = ir.Shape(dims)
+            n = len(dims)
+            for b in self.SHAPE_BINDINGS:
+                def _go():
+                    before = attempt(lambda: shape_obs(shp))
+                    oor = attempt(lambda: shp.is_static(n))
+                    ev = attempt(lambda: shp.evaluate(b))
+                    res = {"before": before[1] if before[0] == "ok" else before[1], "oor": oor[0], "evaluated": None, "after": None}
+                    if ev[0] == "ok":
+                        res["evaluated"] = [sdim_obs(x) for x in ev[1].dims]
+                        res["after"] = shape_obs(ev[1])
+                    else:
+                        res["evaluated"] = ev[1]
+                    return res
+
+                self.rows.append(("shape", dims, b, _go()))
+                self.reqs.append({"m": "sym.shape", "b": envj(b),
+                                  "dims": [x if isinstance(x, int) else ["unknown"] if x is None else ["dim", x] for x in dims]})
+
+    def _fin_shape(self, P: Part, outs):
+        for (_, dims, b, real), so in zip(self.rows, outs):
+            case = {"kind": "glue", "what": "shape", "dims": dims, "b": b}
+            P.case(["glue", "shape", dims, sorted(b.items())], nontrivial=bool(dims), src=self.src, glue_shape_rank=len(dims))
+            mb = so.get("before") or {}
+            if isinstance(real["before"], str):
+                # free_symbols() raises for a text that does not parse
+                if mb.get("free") is not None or real["before"] != "raised:ValueError":
+                    P.disagree("glue: Shape observers raise in only one of model / real code", case, mb.get("free"), real["before"])
+            else:
+                for k in ("static", "dynamic", "static_at", "dynamic_at"):
+                    if mb.get(k) != real["before"][k]:
+                        P.disagree(f"glue: Shape.{k} differs", case, mb.get(k), real["before"][k])
+                if sorted(mb.get("free") or []) != real["before"]["free"]:
+                    P.disagree("glue: Shape.free_symbols() differs", case, mb.get("free"), real["before"]["free"])
+            if (so.get("before") or {}).get("out_of_range") is not None or real["oor"] != "exc":
+                P.disagree("glue: Shape.is_static(rank) must raise IndexError", case, (so.get("before") or {}).get("out_of_range"), real["oor"])
+            mev = so.get("evaluated")
+            if isinstance(real["evaluated"], str):
+                if mev is not None or real["evaluated"] != "raised:ValueError":
+                    P.disagree("glue: Shape.evaluate raises in only one of model / real code", case, mev, real["evaluated"])
+                continue
+            if mev is None or len(mev) != len(real["evaluated"]):
+                P.disagree("glue: Shape.evaluate rank differs / the model raises", case, mev, real["evaluated"])
+                continue
+            same = True
+            for m, r in zip(mev, real["evaluated"]):
+                if m["kind"] == "int" and r != {"kind": "int", "z": m["z"]}:
+                    same = False
+                    P.disagree("glue: Shape.evaluate dimension differs (model int)", case, m, r)
+                elif m["kind"] == "unknown" and r["kind"] != "unknown":
+                    same = False
+                    P.disagree("glue: Shape.evaluate dimension differs (unknown)", case, m, r)
+                elif m["kind"] == "dim" and r["kind"] == "int":
+                    same = False
+                    P.count("shape_eval=real-int-by-simplification")
+                elif m["kind"] == "dim" and r["kind"] != "dim":
+                    same = False
+                    P.disagree("glue: Shape.evaluate dimension differs (dimension)", case, m, r)
+                elif m["kind"] == "dim" and not set(_free_of_text(r["text"])) <= set(m.get("free", [])):
+                    P.disagree("glue: residual dimension has free symbols the model's has not", case, m.get("free"), r["text"])
+            if same:
+                ma, ra = so.get("after") or {}, real["after"]
+                for k in ("static", "dynamic", "static_at", "dynamic_at"):
+                    if ma.get(k) != ra[k]:
+                        P.disagree(f"glue: Shape.{k} differs after evaluate", case, ma.get(k), ra[k])
+                if sorted(ma.get("free") or []) != ra["free"]:
+                    P.disagree("glue: Shape.free_symbols() differs after evaluate", case, ma.get("free"), ra["free"])
+
+    # -- equality and hash
+    def _prep_eq(self, P: Part):
+        import onnx_ir as ir
+        import sympy
+
+        lefts = [("text", None), ("text", "N"), ("text", "N + 1"), ("text", ""), ("text", "a b"), ("computed", "N + 1"), ("computed", "2*N")]
+        others = [("dim", None), ("dim", "N"), ("dim", "N + 1"), ("dim", ""), ("dim", "1 + N"), ("dim", "2*N"), ("str", "N"), ("str", "N + 1"), ("str", ""),
+                  ("str", "2*N"), ("str", "None"), ("none",), ("other", 3), ("other", 1.5), ("other", "sym"), ("other", "tuple")]
+
+        def mk_left(kind, v):
+            if kind == "text":
+                return ir.SymbolicDim(v)
+            return {"N + 1": lambda: ir.SymbolicDim("N") + 1, "2*N": lambda: 2 * ir.SymbolicDim("N")}[v]()
+
+        for lk, lv in lefts:
+            a = mk_left(lk, lv)
+            if a.value != lv:
+                P.disagree("glue: the text of a computed dimension is not the expected SymPy text", {"kind": "glue", "what": "eq", "left": [lk, lv]}, lv, a.value)
+            for o in others:
+                if o[0] == "dim":
+                    b, mo = ir.SymbolicDim(o[1]), ["dim", o[1]]
+                elif o[0] == "str":
+                    b, mo = o[1], ["str", o[1]]
+                elif o[0] == "none":
+                    b, mo = None, ["none"]
+                else:
+                    b, mo = {3: 3, 1.5: 1.5, "sym": sympy.Symbol("N", integer=True, positive=True), "tuple": ("N",)}[o[1]], ["other"]
+                eq, ne = a == b, a != b
+                hk = hash(a) == hash(lv)
+                heq = (hash(a) == hash(b)) if o[0] == "dim" else None
+                self.rows.append(("eq", [lk, lv], list(o), eq, ne, hk, heq))
+                self.reqs.append({"m": "sym.dimeq", "v": lv, "o": mo})
+
+    def _fin_eq(self, P: Part, outs):
+        for (_, left, o, eq, ne, hk, heq), mo in zip(self.rows, outs):
+            case = {"kind": "glue", "what": "eq", "left": left, "other": [str(x) for x in o]}
+            P.case(["glue", "eq", left, [str(x) for x in o]], nontrivial=True, src=self.src, glue_eq=f"{o[0]}:{eq}")
+            if mo.get("eq") != eq:
+                P.disagree("glue: == differs", case, mo.get("eq"), eq)
+            if ne != (not eq):
+                P.disagree("glue: != is not the negation of ==", case, not eq, ne)
+            if not hk or mo.get("hashkey") != left[1]:
+                P.disagree("glue: hash(dim) is not hash(dim.value)", case, mo.get("hashkey"), left[1])
+            if eq and heq is False:
+                P.disagree("glue: equal dimensions hash differently", case, True, heq)
+
+    def prepare(self, P: Part):
+        self.case_obj = {"kind": "glue", "what": self.what, "arg": self.arg}
+        getattr(self, "_prep_" + self.what)(P)
+        if not self.reqs:
+            raise SkipCase
+
+    def finish(self, P: Part, outs):
+        getattr(self, "_fin_" + self.what)(P, outs)
+
+
+def _free_of_text(text):
+    """identifiers of a (real, printed) dimension text that are not function names"""
+    toks = lex(text) or []
+    return {t for i, (k, t) in enumerate(toks) if k == "id" and not (i + 1 < len(toks) and toks[i + 1][0] == "(")}
+
+
+# --------------------------------------------------------------------------- tokenizer over a small alphabet, exhaustively
+
+ALPHABET = [" ", "\t", "N", "_", "1", "0", ".", "e", "+", "-", "*", "/", "%", "(", ")", ",", "#",
+            "\u00e9", "\u0663", "\u00a0", "\u00b2", "\u00bd", "\u2167", "\u0301"]
+# blank, tab | letter, underscore, digits, dot, the letter of 1e3 | operators, brackets, comma, an unknown character |
+# e-acute (letter), ARABIC-INDIC DIGIT THREE (a digit int() reads), NO-BREAK SPACE (isspace), SUPERSCRIPT TWO (isdigit, int()
+# refuses), VULGAR FRACTION ONE HALF (isalnum only: continues), ROMAN NUMERAL EIGHT (isidentifier but not isalpha: starts),
+# COMBINING ACUTE (continues an identifier for isidentifier only)
+
+
+def char_class(c: str):
+    """CPython's verdict on one non-ASCII character, in the model's classification (Model/SymLexU.lean CClass), in the
+    order the tokenizer asks (_symbolic_shapes.py get_token, repaired by D440 / fix commit 47a2c19)"""
+    if c.isspace():
+        return [c, "space"]
+    if c.isdigit():
+        try:
+            return [c, "digit", int(c)]
+        except ValueError:
+            return [c, "digit", None]
+    if c.isalpha() or c.isidentifier():
+        return [c, "alpha"]  # starts an identifier
+    if c.isalnum() or ("_" + c).isidentifier():
+        return [c, "numeric"]  # continues an identifier only
+    return [c, "other"]
+
+
+class AlphabetCase:
+    """Every string over ALPHABET of the given lengths through the real tokenizer / parser and the model's
+    classification-parametric tokenizer (sym.lexu): token streams, accept / reject, values."""
+
+    def __init__(self, first: list, length: int, src: str = "alphabet"):
+        self.first, self.length, self.src = first, length, src
+        self.reqs = []
+        self.rows = []
+
+    def prepare(self, P: Part):
+        for head in self.first:
+            for rest in itertools.product(ALPHABET, repeat=self.length - 1):
+                s = head + "".join(rest)
+                toks = real_tokens(s)
+                out = real_parse_outcome(s)
+                names = sorted({t[1] for t in (toks or []) if t[0] == "IDENT"} | ({s} if s.isidentifier() else set()))
+                env = {n: 2 + (len(n) % 3) for n in names}
+                val = real_eval(out[1], env) if out[0] == "ok" else None
+                self.rows.append((s, toks, out[0], val, env))
+                self.reqs.append({"m": "sym.lexu", "s": s, "ident": s.isidentifier(), "envs": [envj(env)],
+                                  "cls": [char_class(c) for c in sorted(set(s)) if ord(c) >= 128]})
+
+    def finish(self, P: Part, outs):
+        for (s, toks, out, val, env), lo in zip(self.rows, outs):
+            case = {"kind": "alphabet", "s": s}
+            P.case(["alphabet", s], nontrivial=len(s) > 1, src=self.src, alphabet_outcome=out, alphabet_len=len(s), alphabet_ascii=s.isascii())
+            if lo.get("tokens") != toks:
+                P.disagree("alphabet: token streams differ", case, lo.get("tokens"), toks)
+            if out == "arith":
+                if lo.get("r") == "ok" and any(v is not None for v in lo.get("vals") or []):
+                    P.disagree("alphabet: the real parser hit an arithmetic error, the model tree has a value", case, lo, out)
+            elif lo.get("r") != out:
+                P.disagree("alphabet: accept / reject differs", case, lo.get("r"), out)
+            elif out == "ok":
+                w = (lo.get("vals") or [None])[0]
+                if w is not None and val != w:
+                    P.disagree("alphabet: values differ", {**case, "env": env}, w, val)
+
+
+IDENT_NAMES = ["\u2167", "e\u0301", "\u0928\u093e", "x\u00b7y", "N\u0663", "\u2115", "\u00e9t\u00e9", "\u5f20\u91cf", "_\u0301", "N\u2080",
+               "batch", "a.b", "x1"]
+
+
+class IdentNameCase:
+    """A dimension may be named by any identifier (`parse_symbolic_expression` accepts every `str.isidentifier()` text):
+    arithmetic on it must print a text that parses back to the same evaluations (oracle only)."""
+
+    def __init__(self, name: str, src: str = "ident-name"):
+        self.name, self.src = name, src
+        self.reqs = []
+
+    def prepare(self, P: Part):
+        import unicodedata
+
+        import onnx_ir as ir
+
+        name = self.name
+        case = {"kind": "ident-name", "name": name}
+        P.case(["ident-name", name], nontrivial=True, src=self.src, ident_name_ascii=name.isascii())
+        if not name.isidentifier() and "." not in name:
+            raise SkipCase
+        for what, mk, want in (("+1", lambda d: d + 1, 4), ("2*", lambda d: 2 * d, 6), ("//2", lambda d: d // 2, 1), ("neg", lambda d: -d, -3)):
+            st, d = attempt(lambda: mk(ir.SymbolicDim(name)))
+            if st != "ok":
+                P.fail(f"unicode-identifier:arithmetic:{what}", f"SymbolicDim({name!r}) {what} raises {d}", case)
+                continue
+            rp = real_parse_outcome(d.value)
+            if rp[0] != "ok":
+                toks_ok = ""
+                for i, ch in enumerate(d.value):
+                    if real_tokens(d.value[: i + 1]) is None:
+                        toks_ok = unicodedata.category(ch)
+                        break
+                cat = toks_ok if toks_ok in ("Mn", "Mc", "Nl", "Po", "Lm") else "Other"
+                P.fail(f"unicode-identifier:print-parse:{cat}", f"(SymbolicDim({name!r}) {what}).value = {d.value!r} does not parse back ({rp[1]})", case)
+                break
+            got = real_eval(rp[1], {name: 3})
+            if got != [want, 1]:
+                P.fail(f"unicode-identifier:print-parse:value:{what}", f"SymbolicDim({d.value!r}).evaluate({{{name!r}: 3}}) = {got}, expected {want}", case)
+        raise SkipCase
+
+    def finish(self, P: Part, outs):
+        pass
+
+
 def real_tokens(s: str):
     from onnx_ir._symbolic_shapes import _ExpressionTokenizer
 
@@ -1757,6 +2380,12 @@ def _run_chunk(arg):
             c = UnknownDimCase(**it)
         elif kind == "nonascii":
             c = NonAsciiCase(**it)
+        elif kind == "glue":
+            c = GlueCase(**it)
+        elif kind == "alphabet":
+            c = AlphabetCase(**it)
+        elif kind == "identname":
+            c = IdentNameCase(**it)
         else:
             c = StringCase(**it)
         t0 = time.process_time()
@@ -1955,6 +2584,30 @@ def run(ctx: Ctx) -> None:
     for s in NONASCII:
         names = sorted(set(re.findall(r"[^\W\d][\w.]*", s)) - {"max"})
         other_items.append(("nonascii", dict(s=s, envs=[{n: 3 for n in names}, {n: 8 for n in names}])))
+    for op in GLUE_BOPS:
+        other_items.append(("glue", dict(what="binop", arg=op)))
+    for what in ("unop", "shape", "eq"):
+        other_items.append(("glue", dict(what=what)))
+    ctx.exhaustive_scopes.append(
+        f"operator glue matrix: {len(GLUE_BOPS)} binary operators x all ordered pairs of {len(GLUE_KINDS)} operand kinds with a dimension on "
+        f"at least one side (int 3/0/-2/1, plain / computed / text-built dimensions, unknown, unparseable text, float, None, Fraction, str), "
+        f"bool operands, {len(GLUE_UOPS)} unary operators x {len(GLUE_DIMS)} dimension kinds, 13 operators without overload, "
+        f"{len(GlueCase.SHAPES)} shapes x {len(GlueCase.SHAPE_BINDINGS)} bindings (evaluate / is_static / is_dynamic / free_symbols), the == / hash matrix"
+    )
+    for name in IDENT_NAMES:
+        other_items.append(("identname", dict(name=name)))
+    maxlen = ctx.pick(3, 4)
+    for n in range(1, maxlen + 1):
+        if n == 1:
+            other_items.append(("alphabet", dict(first=list(ALPHABET), length=1)))
+        else:
+            for ch in ALPHABET:
+                other_items.append(("alphabet", dict(first=[ch], length=n)))
+    ctx.exhaustive_scopes.append(
+        f"tokenizer / parser on ALL {sum(len(ALPHABET) ** n for n in range(1, maxlen + 1))} strings of length <= {maxlen} over a {len(ALPHABET)}-character alphabet "
+        "(blank, tab, N, _, 1, 0, ., e, + - * / %, ( ) , #, and the non-ASCII classes: letter, decimal digit, no-break space, "
+        "superscript digit, vulgar fraction, letter number, combining mark)"
+    )
     deriv_items = []
     sdepths = [1, 1, 2, 2, 3] if ctx.quick else [1, 2, 2, 3, 4]
     max_tokens = ctx.pick(120, 400)  # SymPy's Max/Min/Mod construction is the cost of a long sentence
@@ -2004,6 +2657,11 @@ def _coverage_floors(ctx: Ctx, ntrees: int, nstrings: int) -> None:
         ("serialize/deserialize clauses checked", d.get("serde=done", 0), ctx.pick(450, 2500)),
         ("integer-fragment comparisons", d.get("int_fragment=checked", 0), ctx.pick(800, 20000)),
         ("standard-meaning oracle applied", d.get("meaning=checked", 0), ctx.pick(600, 10000)),
+        ("model overloads vs Lean parse of the real text", d.get("overload_tie=compared", 0), int(0.8 * ntrees)),
+        ("model of SymPy's printer token-exact", d.get("sympy_pp=token-exact", 0), int(0.7 * ntrees)),
+        ("Shape model compared", d.get("shape_model=compared", 0), ctx.pick(400, 2300)),
+        ("operator glue matrix rows", sum(v for k, v in d.items() if k.startswith("glue_outcome=")), 800),
+        ("alphabet strings", sum(v for k, v in d.items() if k.startswith("alphabet_outcome=")), ctx.pick(14000, 300000)),
     ]
     problems = [f"{name}: {got} < {need}" for name, got, need in floors if got < need]
     if skipped_infra > max(5, (ntrees + nstrings) // 200):
@@ -2026,9 +2684,16 @@ def _totuple(x):
     return tuple(_totuple(y) for y in x) if isinstance(x, list) else x
 
 
-def _add_replay(obj, tree_items, str_items):
+def _add_replay(obj, tree_items, str_items, other_items=None):
     case = obj.get("case", obj)
-    if case.get("kind") == "tree" or "tree" in case:
+    other_items = [] if other_items is None else other_items
+    if case.get("kind") == "glue":
+        other_items.append(("glue", dict(what=case.get("what"), arg=case.get("arg") or case.get("op") if case.get("what") == "binop" else None)))
+    elif case.get("kind") == "alphabet":
+        other_items.append(("alphabet", dict(first=[case["s"]], length=1)))
+    elif case.get("kind") == "ident-name":
+        other_items.append(("identname", dict(name=case["name"])))
+    elif case.get("kind") == "tree" or "tree" in case:
         envs = case.get("envs") or [{s: 3 for s in tree_syms(_totuple(case["tree"]))}]
         splits = [tuple(x) for x in case.get("splits", [])]
         tree_items.append(dict(tree=_totuple(case["tree"]), envs=envs, splits=splits, simplify=True, shape=True, src="corpus"))
@@ -2039,10 +2704,10 @@ def _add_replay(obj, tree_items, str_items):
 
 
 def replay(ctx: Ctx, obj: dict) -> None:
-    tree_items, str_items = [], []
-    _add_replay(obj, tree_items, str_items)
+    tree_items, str_items, other_items = [], [], []
+    _add_replay(obj, tree_items, str_items, other_items)
     for d in obj.get("correspondence_disagreements", []):
         if isinstance(d.get("case"), dict):
-            _add_replay(d["case"], tree_items, str_items)
-    for arg in _chunks("tree", tree_items, 1) + _chunks("string", str_items, 1):
+            _add_replay(d["case"], tree_items, str_items, other_items)
+    for arg in _chunks("tree", tree_items, 1) + _chunks("string", str_items, 1) + [(k, [it]) for k, it in other_items]:
         ctx.merge(_run_chunk(arg))
